@@ -61,4 +61,5 @@ bc0d713 C10
 9500a73 C14
 894c061 C14
 4d9c9d1 C15 C01
+3a169e8 C19
 LIST
